@@ -302,6 +302,9 @@ SUMMARY = [
  ("const-argument-passed-as-copy:param=obj:ptr", "constcopy", "same defect for non-const `K *` parameters: a const instance, which C++ could not pass at all, is accepted and the function works on a temporary copy (Dtool_Coerce_K copies const objects) instead of raising TypeError (no small fix)"),
  ("const-argument-passed-as-copy:param=obj:ref", "constcopy", "same defect for non-const `K &` parameters: a const instance is accepted and the function works on a temporary copy instead of raising TypeError (no small fix)"),
  ("const-argument-passed-as-copy:result-dangles", "constcopy", "consequence: a function returning (a pointer into) its const-reference argument returns a pointer to that destroyed temporary copy; the Python result wraps freed stack memory (no small fix)"),
+ ("name-missing:kind=operator,op=pos", "unaryplus", "a unary `K operator +() const` was filed under nb_add as a binary operator without operand instead of nb_positive: no __pos__ existed (fixed: 198ef93, C02-unary-plus-slot.diff)"),
+ ("positive-rejected:exc=TypeError:operator=unary-plus", "unaryplus", "same: +obj raised TypeError (fixed: 198ef93)"),
+ ("inplace-operator-body-not-run:named=yes", "inplace", "slots that return self discarded the call expression of named in-place methods: `K &__ipow__(double)` was never called, x **= y returned x unchanged (fixed: d7b8abf, C02-inplace-slot-call-dropped.diff)"),
  ("inherited-comparison-lost", "richcmp", "the tp_richcompare slot is written per class from its own operators only: a derived class that declares any comparison operator (or whose first base has none) no longer reaches operator== / < / ... inherited from a base; Python then falls back to identity comparison, the reflected operator or TypeError (no small fix)"),
 ]
 
